@@ -65,7 +65,7 @@ UOpenFail == /\ MayStep /\ pc[USER] = "out" /\ mu = FREE /\ UserMayOpen
              /\ userRes' = (IF isOpen THEN "ALREADY_OPEN" ELSE "openerr") /\ abs' = L!AbsOpenFail(abs)
              /\ UNCHANGED <<isOpen, gen, mu, tokS, tokG, under, fault, rl, pend, pc, closeCh, spurious, closes>> /\ UNCHANGED monvars /\ UNCHANGED closeFails
 
-\* close(cause): enter under f.mu, push the close token (may block!), close the underlying transport, publish
+\* close(cause): enter under f.mu, push the close token (may block!), close the underlying transport (CloseUnder), publish (CloseDone)
 CloseEnter(p) ==
   /\ pc[p] = "out" /\ mu = FREE
   /\ IF ~isOpen \/ (CloseSignal = "pergen+id" /\ p # USER /\ p # gen)
@@ -80,18 +80,25 @@ ClosePush(p) ==
                                ELSE tokG[gen] < 1 /\ tokG' = [tokG EXCEPT ![gen] = 1] /\ UNCHANGED tokS
   /\ pc' = [pc EXCEPT ![p] = "under"]
   /\ UNCHANGED <<isOpen, gen, mu, under, fault, rl, pend, closeCh, userRes, spurious, closes, abs>> /\ UNCHANGED monvars /\ UNCHANGED closeFails
-\* underlying Close() succeeds: publish the cause once, tell the monitor (non-blocking), clear isOpen
-CloseDone(p) ==
+\* underlying Close() succeeds: from here on every read on the underlying transport fails - the read loops can see that
+\* before the closer has published anything (it still holds f.mu)
+CloseUnder(p) ==
   /\ pc[p] = "under" /\ mu = p /\ (p = USER => ~closeFails)
-  /\ under' = "closed" /\ isOpen' = FALSE /\ mu' = FREE
-  /\ closeCh' = [closeCh EXCEPT ![gen] = Append(@, CauseOf(p))]
+  /\ under' = "closed"
   /\ pend' = [g \in Gens |-> pend[g] \/ rl[g] = "reading"]       \* every read blocked right now fails
+  /\ pc' = [pc EXCEPT ![p] = "publish"]
+  /\ UNCHANGED <<isOpen, gen, mu, tokS, tokG, fault, rl, closeCh, userRes, spurious, closes, abs>> /\ UNCHANGED monvars /\ UNCHANGED closeFails
+\* publish the cause once, tell the monitor (non-blocking), clear isOpen, release f.mu
+CloseDone(p) ==
+  /\ pc[p] = "publish" /\ mu = p
+  /\ isOpen' = FALSE /\ mu' = FREE
+  /\ closeCh' = [closeCh EXCEPT ![gen] = Append(@, CauseOf(p))]
   /\ monSig' = IF Len(monSig) < 1 /\ mon # "done" THEN Append(monSig, CauseOf(p)) ELSE monSig
   /\ closes' = closes + 1
   /\ spurious' = (spurious \/ (p # USER /\ p # gen))
   /\ pc' = [pc EXCEPT ![p] = "out"]
   /\ IF p = USER THEN userRes' = "closed" /\ UNCHANGED rl ELSE rl' = [rl EXCEPT ![p] = "exited"] /\ UNCHANGED userRes
-  /\ UNCHANGED <<gen, tokS, tokG, fault, mon, attempts, wait, mlog, told, failsLeft, closeFails, abs>>
+  /\ UNCHANGED <<gen, tokS, tokG, under, pend, fault, mon, attempts, wait, mlog, told, failsLeft, closeFails, abs>>
 \* underlying Close() fails: drain the token, return the error, stay open
 CloseFail(p) ==
   /\ AllowCloseFail /\ pc[p] = "under" /\ mu = p /\ p = USER /\ closeFails
@@ -157,7 +164,7 @@ MonOpen == /\ mon = "open" /\ mu = FREE
                      /\ mon' = "wait" /\ attempts' = 0 /\ UNCHANGED <<failsLeft, wait>>
                      /\ UNCHANGED <<mu, tokS, tokG, fault, pend, pc, closeCh, userRes, spurious>>
            /\ UNCHANGED <<monSig, told, closes, closeFails, abs>>
-Sys == \/ \E p \in Closers : ClosePush(p) \/ CloseDone(p) \/ CloseFail(p)
+Sys == \/ \E p \in Closers : ClosePush(p) \/ CloseUnder(p) \/ CloseDone(p) \/ CloseFail(p)
        \/ \E g \in Gens : RLStart(g) \/ RLErr(g) \/ RLBad(g) \/ RLCheck(g) \/ RLClose(g)
        \/ MonTake \/ MonSleepDone \/ MonOpen
 Env == \/ UOpen \/ UOpenFail \/ UClose \/ UCloseFail
